@@ -116,6 +116,7 @@ func RunConfigs(r *Report, self, repo, known string) {
 type SelfTestSpec struct {
 	ExpectRule      string `json:"expect_rule"`
 	ExpectConstruct string `json:"expect_construct_contains,omitempty"`
+	ExpectSilent    bool   `json:"expect_silent,omitempty"` // a behaviour-preserving edit: the rule set must report nothing
 	Config          string `json:"config,omitempty"` // build configuration under which the mutant is visible (default: host)
 	Origin          string `json:"origin"`
 	What            string `json:"what"`
@@ -217,6 +218,18 @@ func RunSelfTest(r *Report, self, repo, verifDir, known string) {
 				rw.Outcome = "error: " + err.Error()
 				return
 			}
+			if spec.ExpectSilent {
+				rw.Expect = "(silent)"
+				rw.Outcome = "silent"
+				for _, o := range ev.Coverage.All {
+					if o.Status == "violation" {
+						rw.Outcome = "FALSE-ALARM"
+						rw.Reported = o.Rule + " [" + o.Construct + "]"
+						break
+					}
+				}
+				return
+			}
 			rw.Outcome = "MISSED"
 			for _, o := range ev.Coverage.All {
 				if o.Status == "violation" && o.Rule == spec.ExpectRule && strings.Contains(o.Construct, spec.ExpectConstruct) {
@@ -228,9 +241,14 @@ func RunSelfTest(r *Report, self, repo, verifDir, known string) {
 		}(i, sp)
 	}
 	wg.Wait()
-	flagged, drift := 0, 0
+	flagged, drift, silent, nbenign := 0, 0, 0, 0
 	for _, rw := range rows {
+		if rw.Expect == "(silent)" {
+			nbenign++
+		}
 		switch rw.Outcome {
+		case "silent":
+			silent++
 		case "flagged":
 			flagged++
 		case "target-drifted":
@@ -240,7 +258,7 @@ func RunSelfTest(r *Report, self, repo, verifDir, known string) {
 			fmt.Printf("SELFTEST-MISS property=%s mutant=%s expected=%s outcome=%s\n", r.Property, rw.Name, rw.Expect, rw.Outcome)
 		}
 	}
-	fmt.Printf("selftest: %d/%d mutants flagged with the expected rule (%d drifted)\n", flagged, len(rows), drift)
-	r.Extra["selftest"] = map[string]any{"mutants": len(rows), "flagged": flagged, "drifted": drift, "results": rows,
+	fmt.Printf("selftest: %d/%d mutants flagged with the expected rule, %d/%d behaviour-preserving edits silent (%d drifted)\n", flagged, len(rows)-nbenign, silent, nbenign, drift)
+	r.Extra["selftest"] = map[string]any{"mutants": len(rows) - nbenign, "flagged": flagged, "benign_edits": nbenign, "benign_silent": silent, "drifted": drift, "results": rows,
 		"rule": "each mutant is a patch of the real source that breaks the property while compiling; it is applied to a scratch copy of the current working tree and the whole rule set is run on the copy"}
 }
